@@ -25,6 +25,7 @@ def run(ctx, run):
     _tables(ctx, run, chk, take)
     _strict(ctx, run, take)
     _handle_read(ctx, run, P.need("vbi_proxy_msg_handle_read", "src/proxy-msg.c"))
+    _schedule_candidates(ctx, run, P.need("vbi_proxyd_channel_schedule", "daemon/proxyd.c"))
     _partial_read_asserts(ctx, run)
     _token_states(ctx, run)
     _grant_site(ctx, run, P.need("vbi_proxyd_token_grant", UNIT))
@@ -264,6 +265,22 @@ def _handle_read(ctx, run, f):
         cond, lab = ivl.assert_condition(f, bid)
         if cond is not None and "VBIPROXY_MSG_STATE.readLen" in atoms.Operand(f, cond).fields and "max_read_len" in ex.pretty(f, cond):
             sinks.append((bid, i, "assert (%s)" % msg))
+    # the accepted upper bound is the capacity itself, the very value phase two asserts
+    ups = [(src, a) for src, s2, a in bad_edges if a.rel == ">"]
+    if not ups:
+        raise AnalysisBroken("vbi_proxy_msg_handle_read: upper length test not found")
+    for src, a in ups:
+        j = ex.skip(f, a.R.node) if a.R.node is not None else None
+        while j is not None and f.exprs[j]["k"] == "cast":
+            j = ex.skip(f, f.exprs[j]["c"][0])
+        key = "RF-TAB:vbi_proxy_msg_handle_read:length-bound-is-capacity"
+        if j is not None and f.exprs[j]["k"] == "ref" and f.exprs[j].get("dk") == "param":
+            run.holds("RF-TAB", key, "the length is rejected when it exceeds `%s`, the same bound the second read phase asserts"
+                      % f.exprs[j]["name"], ex.loc(f, a.L.node))
+        else:
+            run.violation("RF-TAB", key, "phase one accepts lengths up to `%s` but phase two asserts readLen <= max_read_len (the "
+                          "size of the message buffer): a client announcing a length in between aborts the daemon"
+                          % ex.pretty(f, a.R.node)[:60], ex.loc(f, a.L.node), witness={"accepted_bound": ex.pretty(f, a.R.node)})
     run.floor("phase-two sinks of the message length", len(sinks), 2)
     for bid, i, what in sinks:
         reach = None
@@ -539,3 +556,32 @@ def _drain_before_update(ctx, run, f):
                           "drained first: if the update stops acquisition the queue buffers are freed while req->p_sliced still points "
                           "at them (use after free)", ex.loc(f, i), witness={"function": f.name})
     run.floor("service updates of forwarding clients", n, 1)
+
+
+def _schedule_candidates(ctx, run, f):
+    """The scheduler may select (and thereby hand the channel token to) only clients of that device
+    that hold a valid channel request at background priority."""
+    run.touch(f)
+    n = 0
+    need = [("same device (dev_idx == dev_idx)", lambda a: a.rel == "==" and any(x.endswith(".dev_idx") for x in a.L.fields)),
+            ("a valid channel request (chn_profile.is_valid)", lambda a: a.rel == "!=" and a.R is not None and a.R.const == 0
+             and any(x.endswith(".is_valid") for x in a.L.fields)),
+            ("background priority", lambda a: a.rel == "==" and any(x.endswith(".chn_prio") for x in a.L.fields))]
+    for bid, i in flow.all_events(f):
+        e = f.exprs[i]
+        if e["k"] != "asg" or e["op"] != "=":
+            continue
+        l = f.exprs[ex.skip(f, e["c"][0])]
+        if not (l["k"] == "ref" and l.get("name") == "p_sched") or ex.is_null(f, e["c"][1]):
+            continue
+        n += 1
+        ats = atoms.atoms_at(f, i)
+        missing = [nm for nm, p in need if not any(p(a) for a in ats)]
+        key = "RF-DOM:vbi_proxyd_channel_schedule:candidate"
+        if missing:
+            run.violation("RF-DOM", key, "`%s` selects a client for the channel token without: %s - a client that never asked for "
+                          "channel control (or withdrew its request) is granted the token and the real requesters are refused"
+                          % (ex.pretty(f, i), "; ".join(missing)), ex.loc(f, i), witness={"dominating": [repr(a) for a in ats]})
+        else:
+            run.holds("RF-DOM", key, "selection dominated by same device, valid request, background priority", ex.loc(f, i))
+    run.floor("scheduler selection sites", n, 5)
